@@ -49,7 +49,7 @@ class Co:
         return self.cmd
 
     # driver side
-    def resume(self, cmd=None, timeout=20):
+    def resume(self, cmd=None, timeout=10):
         if self.finished:
             raise RuntimeError('helper thread is gone')
         self.cmd = cmd
